@@ -803,7 +803,11 @@ pub fn gen_lines(d: &Decl, rng: &mut Rng, n: usize) -> Vec<(String, &'static str
                 // surplus value / unknown option somewhere
                 let mut t = toks.clone();
                 for _ in 0..rng.range(1, 3) {
-                    let junk = rng.pick(&["extra", "--nope", "-Z", "-é", "--", "", "-", "--dry-run", "--nocache", "--help", "-h"]).to_string();
+                    let mut junk = rng.pick(&["extra", "--nope", "-Z", "-é", "--", "", "-", "--dry-run", "--nocache", "--help", "-h", "q\"uo te", "--é€𐍈", "-𐍈", "'", "x=y", "LONG", "--LONG"]).to_string();
+                    if junk.ends_with("LONG") {
+                        // payloads of a few hundred bytes in the error line
+                        junk = junk.replace("LONG", &"surplus-é".repeat(rng.range(30, 60)));
+                    }
                     let at = rng.range(1, t.len());
                     t.insert(at, junk);
                 }
